@@ -97,8 +97,7 @@ Proof. vm_compute. reflexivity. Qed.
 Example test_pad_len_112 : length (sha512_pad 112 (zeros 112)) = 256%nat.
 Proof. vm_compute. reflexivity. Qed.
 Example test_pad_abc :
-  sha1_pad 3 m_abc = hex ("61626380" ++ "00000000000000000000000000000000000000000000000000000000"
-    ++ "00000000000000000000000000000000000000000000000000000000" ++ "0000000000000018").
+  sha1_pad 3 m_abc = hex "61626380" ++ zeros 52 ++ hex "0000000000000018".
 Proof. vm_compute. reflexivity. Qed.
 
 (* ---- "prefix blocks already processed" form (total length separate) ---- *)
@@ -109,10 +108,10 @@ Example test_sha256_split :
   = sha256 m_896.
 Proof. vm_compute. reflexivity. Qed.
 Example test_sha512_split :
-  md_finish SHA512 (md_run_blocks SHA512 sha512_init (zeros 128)) 131 m_abc
+  md_finish H_SHA512 (md_run_blocks H_SHA512 sha512_init (zeros 128)) 131 m_abc
   = sha512 (zeros 128 ++ m_abc).
 Proof. vm_compute. reflexivity. Qed.
-Example test_md_full_sha1 : md_full SHA1 m_448 = sha1 m_448.
+Example test_md_full_sha1 : md_full H_SHA1 m_448 = sha1 m_448.
 Proof. vm_compute. reflexivity. Qed.
 
 (* trailing partial block ignored by X_blocks *)
